@@ -1,8 +1,10 @@
 package main
 
 import (
+	"fmt"
 	"go/constant"
 	"go/token"
+	"sort"
 
 	"golang.org/x/tools/go/ssa"
 )
@@ -13,8 +15,9 @@ func init() {
 			"(R1) dialBack is reachable only past limiter.Accept==true and, on paths where the dial-data policy answered true, only past AcceptDialDataRequest==true and getDialData==nil; "+
 			"(R2) dialBack receives the authenticated remote peer and the address chosen from the request, and inside dialBack AddAddr/Connect/NewStream use exactly those under a force-direct context, with cleanup deferred; who-may-call of the dialer host; "+
 			"(R3) a non-nil dial address is produced only from a request entry past the public/CanDial/index-bound checks and nil reaches no dial; "+
-			"(R4) dial-data size constants and the default policy; (R5) rate limiter guards and lock discipline.",
-		"sliding-window arithmetic of the rate limiter, byte counting in readDialData, concurrency beyond lock discipline")
+			"(R4) dial-data size constants and the default policy; (R5) rate limiter guards, the in-progress count moving by one per admission/completion, and lock discipline; "+
+			"(R6) ReadMsg returns a message only when the whole announced length was read and readDialData finishes only when credits of at most the message lengths cover numBytes.",
+		"sliding-window arithmetic of the rate limiter, the protobuf framing overhead subtracted in readDialData (only that a credit never exceeds the message length is decided), concurrency beyond lock discipline")
 }
 
 const an2 = "p2p/protocol/autonatv2"
@@ -180,12 +183,26 @@ func checkC16(c *Ctx, r *Report) {
 			q := &Cut{Fn: fn, From: defCalls, TargetEdge: edgeSet(nonNilIn), EdgeCut: g.e, StopAtFrom: true}
 			r3.mustPass(fn, serve+": dialAddr=a guarded-by "+g.name, q, len(nonNilIn))
 		}
-		// index bound: the loop body (the NewMultiaddrBytes call) is reachable only under i < maxPeerAddresses
-		r3.guard(fn, "NewMultiaddrBytes(ab)", defCalls, "i < maxPeerAddresses", edgeExcl(func(v ssa.Value) bool {
-			// the range index of the address loop (phi+1) or any int compared with the constant
-			_, isC := constInt(v)
-			return !isC && isIntType(v.Type())
-		}, func(v ssa.Value) bool { n, ok := constInt(v); return ok && n == maxAddrs }, ordEQ, ordGT), nil)
+		// index bound: only the first maxPeerAddresses entries of the request are parsed: the entry handed to
+		// NewMultiaddrBytes is S[i] with i < maxPeerAddresses tested, or S itself cut to at most that many
+		for _, dc := range defCalls {
+			call := dc.(*ssa.Call)
+			var S, idx ssa.Value
+			if ld, ok := strip(call.Call.Args[0]).(*ssa.UnOp); ok && ld.Op == token.MUL {
+				if ia, ok := ld.X.(*ssa.IndexAddr); ok {
+					S, idx = ia.X, ia.Index
+				}
+			}
+			key := serve + ": the entry parsed is among the first maxPeerAddresses"
+			if S == nil {
+				r3.Fail(key, instrPos(dc), "the parsed bytes are not an element of the request's address list", "")
+				continue
+			}
+			w1, n1 := (&Cut{Fn: fn, Target: isInstr(dc), EdgeCut: edgeExcl(func(v ssa.Value) bool { return v == idx },
+				func(v ssa.Value) bool { n, ok := constInt(v); return ok && n == maxAddrs }, ordEQ, ordGT)}).Run(c)
+			w2, n2 := sliceBoundedAt(c, fn, dc, S, maxAddrs)
+			r3.Check(w1 == "" || w2 == "", key, instrPos(dc), n1+n2+1, "", "a request can make the server examine (CanDial, parse) an unbounded number of addresses", w1)
+		}
 		r3.guard(fn, "call dialBack", dialBacks, "dialAddr != nil", edgeNil(isValue(dialAddrPhi), false), nil)
 		r3.guard(fn, "policy/dial-data request", findInstrs(fn, func(in ssa.Instruction) bool { return in == policy.(ssa.Instruction) }), "dialAddr != nil", edgeNil(isValue(dialAddrPhi), false), nil)
 	} else if fn != nil {
@@ -369,6 +386,66 @@ func checkC16(c *Ctx, r *Report) {
 			r5.mustPass(fn, serve+": accepted request passes defer CompleteRequest(p) before any exit", q, len(acceptTrue))
 		}
 	}
+	// the in-progress count: +1 on admission, -1 on completion, the entry dropped only when nothing is in progress
+	isInProgMut := func(in ssa.Instruction) bool {
+		switch x := in.(type) {
+		case *ssa.MapUpdate:
+			return isLoadOfField(rlT + ".inProgressReqs")(strip2(x.Map))
+		case *ssa.Call:
+			return calleeKey(x) == "builtin.delete" && isLoadOfField(rlT+".inProgressReqs")(strip2(x.Call.Args[0]))
+		}
+		return isFieldWrite(in, rlT+".inProgressReqs")
+	}
+	completeK := "(*" + an2 + ".rateLimiter).CompleteRequest"
+	r5.onlyIn("mutate "+rlT+".inProgressReqs", isInProgMut, c.FnsOfPkg(an2), acceptK, completeK, "(*"+an2+".rateLimiter).init", "(*"+an2+".rateLimiter).Close")
+	stepRule := func(fnK string, op token.Token, what string) {
+		f := r5.need(fnK)
+		if f == nil {
+			return
+		}
+		ups := findInstrs(f, func(in ssa.Instruction) bool { _, ok := in.(*ssa.MapUpdate); return ok && isInProgMut(in) })
+		if len(ups) != 1 {
+			r5.Fail(fnKey(f)+": one update of inProgressReqs[p]", f.Pos(), "expected exactly one assignment to the peer's in-progress count", fmt.Sprint(len(ups)))
+			return
+		}
+		up := ups[0].(*ssa.MapUpdate)
+		isP := func(v ssa.Value) bool { return isParamVar(c, strip(v), "p") }
+		isCount := func(v ssa.Value) bool {
+			lk, ok := strip2(v).(*ssa.Lookup)
+			return ok && isLoadOfField(rlT+".inProgressReqs")(strip2(lk.X)) && isP(lk.Index)
+		}
+		okStep := false
+		if bo, ok := strip(up.Value).(*ssa.BinOp); ok && isP(up.Key) {
+			k, isC := constInt(bo.Y)
+			okStep = isCount(bo.X) && isC && ((bo.Op == op && k == 1) || (bo.Op != op && (bo.Op == token.ADD || bo.Op == token.SUB) && k == -1))
+		}
+		r5.Check(okStep, fnKey(f)+": inProgressReqs[p] "+what, instrPos(up), 1, "", "the peer's concurrent-request count no longer follows the requests being served", describeVal(up.Value))
+		// the entry is dropped only when the (already updated) count is not positive
+		dels := findInstrs(f, func(in ssa.Instruction) bool {
+			call, ok := in.(*ssa.Call)
+			return ok && calleeKey(call) == "builtin.delete" && isInProgMut(in)
+		})
+		after := func(v ssa.Value) bool {
+			if strip(v) == strip(up.Value) {
+				return true
+			}
+			lk, ok := strip2(v).(*ssa.Lookup)
+			if !ok || !isCount(v) {
+				return false
+			}
+			return up.Block().Dominates(lk.Block()) && (up.Block() != lk.Block() || instrIndex(up) < instrIndex(lk))
+		}
+		isZero := func(v ssa.Value) bool { k, ok := constInt(v); return ok && k == 0 }
+		for _, d := range dels {
+			r5.Check(isP(d.(*ssa.Call).Call.Args[1]), fnKey(f)+": delete(inProgressReqs, p) drops the completing peer's entry", instrPos(d), 1, "", "", "")
+		}
+		if len(dels) > 0 {
+			r5.guard(f, "delete(inProgressReqs, p)", dels, "inProgressReqs[p] <= 0 (after the update)", edgeExcl(after, isZero, ordGT), nil)
+		}
+	}
+	stepRule(acceptK, token.ADD, "+= 1 on admission")
+	stepRule(completeK, token.SUB, "-= 1 on completion")
+
 	// window trimming: every trim bound `x = x[k:]` in cleanup is the index of the FIRST
 	// live entry: the bound is not loop-carried past a match (the search leaves the loop)
 	if cl := r5.need("(*" + an2 + ".rateLimiter).cleanup"); cl != nil {
@@ -416,6 +493,249 @@ func checkC16(c *Ctx, r *Report) {
 		Guarded:  []string{"closed", "reqs", "peerReqs", "dialDataReqs", "inProgressReqs"},
 		Requires: []string{"(*" + an2 + ".rateLimiter).init", "(*" + an2 + ".rateLimiter).cleanup"},
 	})
+
+	// ---- R6 ---------------------------------------------------------------
+	// dial data is credited only for bytes that arrived
+	r6 := r.Rule("C16-R6", "E7c/E1", 8, "ReadMsg succeeds only with the whole announced message read; readDialData finishes only when the credited lengths (each at most the message length) cover numBytes")
+	peel := func(v ssa.Value) ssa.Value {
+		for {
+			switch x := v.(type) {
+			case *ssa.Convert:
+				v = x.X
+			case *ssa.ChangeType:
+				v = x.X
+			default:
+				return v
+			}
+		}
+	}
+	rmK := "(*" + an2 + ".msgReader).ReadMsg"
+	if f := r6.need(rmK); f != nil {
+		var szV ssa.Value
+		for _, call := range callsIn(f, "github.com/multiformats/go-varint.ReadUvarint") {
+			allInstrs(f, func(in ssa.Instruction) {
+				if ex, ok := in.(*ssa.Extract); ok && ex.Tuple == call.Value() && ex.Index == 0 {
+					szV = ex
+				}
+			})
+		}
+		reads := callsIn(f, "(io.Reader).Read")
+		isNr := func(v ssa.Value) bool {
+			ex, ok := peel(v).(*ssa.Extract)
+			if !ok || ex.Index != 0 {
+				return false
+			}
+			for _, rd := range reads {
+				if ex.Tuple == rd.Value() {
+					return true
+				}
+			}
+			return false
+		}
+		// n: the integer that starts at 0 and only grows by what Read reported
+		var nPhi *ssa.Phi
+		allInstrs(f, func(in ssa.Instruction) {
+			p, ok := in.(*ssa.Phi)
+			if !ok || nPhi != nil {
+				return
+			}
+			zero, adds, other := 0, 0, 0
+			for _, e := range p.Edges {
+				if k, isC := constInt(e); isC && k == 0 {
+					zero++
+				} else if bo, isB := e.(*ssa.BinOp); isB && bo.Op == token.ADD && ((peel(bo.X) == ssa.Value(p) && isNr(bo.Y)) || (peel(bo.Y) == ssa.Value(p) && isNr(bo.X))) {
+					adds++
+				} else {
+					other++
+				}
+			}
+			if zero == 1 && adds >= 1 && other == 0 {
+				nPhi = p
+			}
+		})
+		if szV == nil || nPhi == nil || len(reads) == 0 {
+			r6.Fail(rmK+": announced size, byte counter and Read", f.Pos(), "the length prefix, the counter of bytes read (0, then += Read's count) or the Read call was not identified", "")
+		} else {
+			isN := func(v ssa.Value) bool { return peel(v) == ssa.Value(nPhi) }
+			isSz := func(v ssa.Value) bool { return peel(v) == szV }
+			var okRets []ssa.Instruction
+			for _, ret := range returnsOf(f) {
+				if !isNilConst(retVal(ret, 0)) {
+					okRets = append(okRets, ret)
+				}
+			}
+			r6.guard(f, "return message", okRets, "n >= announced size", edgeExcl(isN, isSz, ordLT), nil)
+			r6.guard(f, "return message", okRets, "ReadUvarint err==nil", edgeNil(isCallResult(1, "github.com/multiformats/go-varint.ReadUvarint"), true), nil)
+			isBufLen := func(v ssa.Value) bool {
+				call, ok := peel(v).(*ssa.Call)
+				return ok && calleeKey(call) == "builtin.len" && isLoadOfField(an2+".msgReader.Buf")(strip2(call.Call.Args[0]))
+			}
+			r6.guard(f, "return message", okRets, "announced size <= len(Buf)", edgeExcl(isSz, isBufLen, ordGT), nil)
+			for _, ret := range okRets {
+				sl, ok := retVal(ret.(*ssa.Return), 0).(*ssa.Slice)
+				r6.Check(ok && sl.Low == nil && sl.High != nil && isSz(sl.High) && isLoadOfField(an2+".msgReader.Buf")(strip2(sl.X)), rmK+": returns Buf[:announced size]", instrPos(ret), 1, "", "", "")
+			}
+			for _, rd := range reads {
+				sl, ok := strip(rd.Common().Args[0]).(*ssa.Slice)
+				r6.Check(ok && sl.Low != nil && isN(sl.Low) && sl.High != nil && isSz(sl.High) && isLoadOfField(an2+".msgReader.Buf")(strip2(sl.X)), rmK+": Read fills Buf[n:announced size]", instrPos(rd.(ssa.Instruction)), 1, "", "bytes counted are not the bytes of this message", "")
+			}
+		}
+	}
+	rddK := an2 + ".readDialData"
+	if f := r6.need(rddK); f != nil {
+		var msg ssa.Value
+		rms := callsIn(f, rmK)
+		if len(rms) == 1 {
+			allInstrs(f, func(in ssa.Instruction) {
+				if ex, ok := in.(*ssa.Extract); ok && ex.Tuple == rms[0].Value() && ex.Index == 0 {
+					msg = ex
+				}
+			})
+		}
+		// remain: starts at numBytes, afterwards only remain - d
+		var rem *ssa.Phi
+		allInstrs(f, func(in ssa.Instruction) {
+			p, ok := in.(*ssa.Phi)
+			if !ok || rem != nil {
+				return
+			}
+			for _, e := range p.Edges {
+				if isParamVar(c, peel(e), "numBytes") {
+					rem = p
+				}
+			}
+		})
+		if msg == nil || rem == nil {
+			r6.Fail(rddK+": message and remaining-bytes counter", f.Pos(), "the ReadMsg result or the counter initialised from numBytes was not identified", "")
+		} else {
+			// le: the value is at most len(msg) on every path (a credit never exceeds what was received)
+			var le func(v ssa.Value, env map[*ssa.Parameter]ssa.Value, seen map[ssa.Value]bool, d int) bool
+			le = func(v ssa.Value, env map[*ssa.Parameter]ssa.Value, seen map[ssa.Value]bool, d int) bool {
+				v = peel(v)
+				if d > 12 {
+					return false
+				}
+				if seen[v] {
+					return true
+				}
+				if k, isC := constInt(v); isC {
+					return k <= 0
+				}
+				switch x := v.(type) {
+				case *ssa.Parameter:
+					if a, ok := env[x]; ok {
+						return le(a, nil, seen, d+1)
+					}
+				case *ssa.Call:
+					switch calleeKey(x) {
+					case "builtin.len":
+						return peel(x.Call.Args[0]) == msg || strip(x.Call.Args[0]) == msg
+					case "builtin.max":
+						for _, a := range x.Call.Args {
+							if !le(a, env, seen, d+1) {
+								return false
+							}
+						}
+						return true
+					case "builtin.min":
+						for _, a := range x.Call.Args {
+							if le(a, env, seen, d+1) {
+								return true
+							}
+						}
+						return false
+					}
+					h := x.Call.StaticCallee()
+					if h != nil && h.Blocks != nil && h.Pkg != nil && h.Pkg.Pkg.Path() == Mod+an2 && len(h.Params) == len(x.Call.Args) {
+						e2 := map[*ssa.Parameter]ssa.Value{}
+						for i, p := range h.Params {
+							e2[p] = x.Call.Args[i]
+						}
+						if env != nil {
+							return false // one level of helpers
+						}
+						for _, ret := range returnsOf(h) {
+							if len(ret.Results) != 1 || !le(ret.Results[0], e2, map[ssa.Value]bool{}, d+1) {
+								return false
+							}
+						}
+						return true
+					}
+				case *ssa.BinOp:
+					if x.Op == token.SUB {
+						k, isC := constInt(x.Y)
+						return isC && k >= 0 && le(x.X, env, seen, d+1)
+					}
+					if x.Op == token.ADD {
+						k, isC := constInt(x.Y)
+						return isC && k <= 0 && le(x.X, env, seen, d+1)
+					}
+				case *ssa.Phi:
+					seen[v] = true
+					for _, e := range x.Edges {
+						if !le(e, env, seen, d+1) {
+							return false
+						}
+					}
+					return true
+				}
+				return false
+			}
+			// every value remain takes after the start is remain - d with d <= len(msg)
+			inChain := map[ssa.Value]bool{rem: true}
+			nUpd := 0
+			okChain := true
+			var bad ssa.Value
+			var walk func(v ssa.Value, d int)
+			walk = func(v ssa.Value, d int) {
+				v = peel(v)
+				if inChain[v] || d > 8 {
+					return
+				}
+				if isParamVar(c, v, "numBytes") {
+					return
+				}
+				switch x := v.(type) {
+				case *ssa.Phi:
+					inChain[v] = true
+					for _, e := range x.Edges {
+						walk(e, d+1)
+					}
+					return
+				case *ssa.BinOp:
+					if x.Op == token.SUB && (inChain[peel(x.X)] || func() bool { walk(x.X, d+1); return inChain[peel(x.X)] }()) {
+						inChain[v] = true
+						nUpd++
+						if !le(x.Y, nil, map[ssa.Value]bool{}, 0) {
+							okChain, bad = false, x.Y
+						}
+						return
+					}
+				}
+				okChain, bad = false, v
+			}
+			for _, e := range rem.Edges {
+				walk(e, 0)
+			}
+			witness := ""
+			if bad != nil {
+				witness = describeVal(bad)
+			}
+			r6.Check(okChain && nUpd > 0, rddK+": remain only decreases by credits of at most len(msg)", rem.Pos(), nUpd+1, "", "a message is credited with more bytes than were received, so the dial happens before numBytes arrived", witness)
+			isRem := func(v ssa.Value) bool { return peel(v) == ssa.Value(rem) }
+			isZero := func(v ssa.Value) bool { k, ok := constInt(v); return ok && k == 0 }
+			r6.guard(f, "return nil", successReturns(f), "remain <= 0", edgeExcl(isRem, isZero, ordGT), nil)
+			// a message is credited only if it was read successfully
+			var subs []ssa.Instruction
+			for v := range inChain {
+				if bo, ok := v.(*ssa.BinOp); ok {
+					subs = append(subs, bo)
+				}
+			}
+			sort.Slice(subs, func(i, j int) bool { return subs[i].Pos() < subs[j].Pos() })
+			r6.guard(f, "credit", subs, "ReadMsg err==nil", edgeNil(isCallResult(1, rmK), true), nil)
+		}
+	}
 }
 
 // onlyFieldStores: v is a load of a local struct all of whose initialised
